@@ -1,7 +1,7 @@
 """C16 — slashing scales the slashed validator's stake and nothing else: decided structural clauses (DESIGN.md §5 C16)."""
 from vlib import q
 from vlib.cfg import cfg_of
-from vlib.prov import peel, fmt, is_param, contains, alts, leaves, is_param_field, same_origin, deep_peel
+from vlib.prov import peel, fmt, is_param, contains, alts, leaves, is_param_field, same_origin, deep_peel, just
 from rules.C14 import store_calls, staker_set_calls, STAKES, VINFO, QUEUE, SK, _succ_dom, _arm
 
 LEVEL = "other"
@@ -87,7 +87,7 @@ def r1(ctx, cfg):
             ctx.ob(R, SUDO, "slash-succeeds-only-validated-and-applied", not out,
                    "the Slash arm can produce a success at block(s) %s without `!(percentage > 1)` and a successful slash" % out, fn=f,
                    sample="every non-Err result of the arm dominated by the guard and Continue(slash(..))")
-            ctx.ob(R, SUDO, "slash(validator, percentage)-of-the-message", contains(a[4], lambda x: is_param_field(x, "msg", "validator")) and is_param_field(a[5], "msg", "percentage"),
+            ctx.ob(R, SUDO, "slash(validator, percentage)-of-the-message", just(a[4], lambda x: is_param_field(x, "msg", "validator")) and is_param_field(a[5], "msg", "percentage"),
                    "slash(%s, %s)" % (fmt(a[4])[:40], fmt(a[5])[:40]), fn=f, sample="(&validator, percentage)")
             st = peel(a[2])
             ctx.ob(R, SUDO, "slash-on-staking-view", st[0] == "call" and st[1] == "prefixed_storage::prefixed" and peel(st[2][1]) == ("item", "staking::NAMESPACE_STAKING"),
